@@ -617,7 +617,12 @@ Definition qrow_gate_ok (ra : qrow * act) : bool :=
   implb (negb (q_tgt_me r)) (match a_h a with HCreate TTerm _ | HSet _ | HComplete => false | _ => true end &&
                               match a_s a with SToH => false | _ => true end) &&
   negb (creates_term_p a) &&
-  implb (a_hs a) (q_am r && negb (q_tgt_me r) && negb (q_from_me r) && negb (is_some (q_peer r))).
+  implb (a_hs a) (q_am r && negb (q_tgt_me r) && negb (q_from_me r) && negb (is_some (q_peer r))) &&
+  (* as target: an Established / Disestablished relay is never re-keyed to another initiator index, and not answered *)
+  match q_tgt_me r, q_ex r with
+  | true, Some (SEst, false) | true, Some (SDis, false) => negb (touches_h a) && negb (sends a)
+  | _, _ => true
+  end.
 
 (* C39, response handler: only the record named by the message is completed; the peer leg is touched and told only
    for a forwarding record whose peer is known; nothing is ever created *)
@@ -629,4 +634,6 @@ Definition xrow_gate_ok (ra : xrow * act) : bool :=
   implb (touches_p a || sends a)
         (match x_rec r, x_peer r with Some (TFwd, _, _), Some (Some _) => true | _, _ => false end) &&
   match a_s a with SToH => false | _ => true end &&
-  negb (a_hs a).
+  negb (a_hs a) &&
+  (* a leg this node itself requested and that has not been answered yet is not established by somebody else's answer *)
+  match x_peer r with Some (Some SReq) => negb (touches_p a) && negb (sends a) | _ => true end.
